@@ -451,6 +451,8 @@ class Project:
             src = os.path.join(self.dir, name)
             if name == '.redo':
                 shutil.copytree(src, os.path.join(dst, 'p', '.redo'))
+            elif os.path.islink(src) and not os.path.exists(src):      # (a dangling link: a stale $3)
+                os.symlink(os.readlink(src), os.path.join(dst, 'p', name))
             elif os.path.isfile(src):
                 os.link(src, os.path.join(dst, 'p', name))
             elif os.path.isdir(src):
@@ -745,8 +747,16 @@ def replay_group(prog, alts, root, bindir, trace=None, log_mode=None, jflag=None
         elif a == 'rm':
             pj.remove(step['n'])
         elif a == 'tmp':
-            with open(pj.path(step['n']) + '.redo.tmp', 'w') as f:
-                f.write('stale partial output of an earlier, killed build\n')
+            stale = pj.path(step['n']) + '.redo.tmp'
+            if os.path.isdir(stale) and not os.path.islink(stale):
+                shutil.rmtree(stale)
+            elif os.path.lexists(stale):
+                os.unlink(stale)
+            if step.get('v') == 'l':
+                os.symlink('data-that-was-never-written', pj.path(step['n']) + '.redo.tmp')
+            else:
+                with open(pj.path(step['n']) + '.redo.tmp', 'w') as f:
+                    f.write('stale partial output of an earlier, killed build\n')
         elif a in ('doedit', 'doadd'):
             pj.write_do(step['n'], step['v'])
         elif a == 'relink':
